@@ -163,12 +163,29 @@ def run(chk):
             chk.ok("C17.release", rwi, "rewrite branch: the dropped payload is closed")
         else:
             chk.violation("C17.release", rwi, norm.raw(rwi.test), "await req._body.close()", "the payload of a request whose body is dropped by a 301/302/303 redirect (e.g. an open file) is never closed")
-        keep = [s for s in rwi.orelse if isinstance(s, ast.Assign) and norm.raw(s) == "data = req._body"]
+        keep = [s for o in rwi.orelse for s in ast.walk(o) if isinstance(s, ast.Assign) and norm.raw(s) == "data = req._body"]
         ref = [n for n, c in K.raises_in(ast.Module(body=rwi.orelse, type_ignores=[])) if c == "ClientPayloadError"]
         if keep and ref and PC.has_lit(PC.pc(ref[0], stop=rwi), "req._body.consumed", True) is not None and ref[0].lineno < keep[0].lineno:
             chk.ok("C17.table", keep[0], "preserve branch: the same payload is re-sent, a consumed (non-replayable) body is refused first")
         else:
             chk.violation("C17.table", rwi, "else: if req._body.consumed: raise ...; data = req._body", "", "a consumed body is silently re-sent empty / the body is not preserved on 307/308")
+        # a request that had no body has none on the next hop either (the empty payload is a sentinel, not data to replay)
+        if keep:
+            kl = [l for c in PC.pc(keep[0], stop=rwi, raw=True) if len(c) == 1 for l in c]
+            extra = [l for l in kl if "consumed" not in l.text and "_EMPTY_BODY" not in l.text and "req._body" not in l.text]
+            if any("_EMPTY_BODY" in l.text or l.text in ("data is None", "data is not None") for l in kl) and not extra:
+                chk.ok("C17.table", keep[0], "preserve branch: the payload is carried over only when the request had one")
+            elif extra:
+                chk.violation("C17.table", keep[0], K.short(keep[0]), str(extra[0]), "the body is preserved on 307/308 only under an extra condition")
+            else:
+                chk.violation("C17.table", keep[0], K.short(keep[0]), "if req._body is not req._EMPTY_BODY: data = req._body",
+                              "the preserve branch re-sends `req._body` even when the request had no body: the empty-payload sentinel counts as data, so a body-less GET/HEAD/OPTIONS redirected by 301/302/307/308 gains `Content-Length: 0` and `Content-Type: application/octet-stream` on the next hop")
+        # the expectation goes with the body it announced
+        if "expect100 = False" in body and "hdrs.EXPECT" in body:
+            chk.ok("C17.table", rwi, "rewrite branch: Expect: 100-continue is dropped together with the body")
+        else:
+            chk.violation("C17.table", rwi, norm.raw(rwi.test), "expect100 = False; headers.popall(hdrs.EXPECT, None)",
+                          "a POST sent with expect100=True and redirected by 301/302/303 becomes a body-less GET that still carries `Expect: 100-continue` (RFC 9110 10.1.1 forbids it without content); the writer waits for a 100 that never comes and the connection is closed instead of pooled")
     # ---- limit -----------------------------------------------------------------------------------------------------------
     for pat, what in (("redirects += 1", "hop counter"), ("history.append(resp)", "history record")):
         nodes = K.nodes_matching(rq, pat)
@@ -209,6 +226,7 @@ def run(chk):
             chk.ok("C17.entry", u, f"the redirect target `{tname}` has its netloc validated inside the ValueError guard")
         else:
             chk.violation("C17.entry", u, K.short(u, 70), f"{tname}.port inside the try", "with requote_redirect_url=False the Location is parsed with encoded=True, which defers netloc validation: `Location: http://b.test:abc/` passes every guard and the next hop raises a bare ValueError (not a ClientError) from server-controlled input")
+    hunt2_rules(chk, repo, rq, red)
     inc = [s for s in ast.walk(red) if isinstance(s, ast.AugAssign) and norm.raw(s) == "redirects += 1"]
     if inc and tm and inc[0].lineno < tm[0].lineno:
         chk.ok("C17.limit", inc[0], "the counter is incremented before it is compared (at most max_redirects requests)")
@@ -245,3 +263,53 @@ def run(chk):
                 else:
                     chk.violation("C17.release", n, "continue", "resp.release()", "the intermediate response is not released before the next hop")
     chk.expect_count("C17.release", nr, 5, "raise sites in the redirect branch")
+
+
+def hunt2_rules(chk, repo, rq, red):
+    """Rules written after the second defect hunt (F109-F114)."""
+    # ---- C17.entry: everything server-controlled input can make raise is converted to a ClientError --------------------------------------
+    # (a) the raw Location text is checked for encodability inside the guard (bytes that are not UTF-8 arrive surrogate-escaped and only
+    #     fail when the next hop serialises the URL)
+    urls = [s for s in ast.walk(red) if isinstance(s, ast.Assign) and isinstance(s.value, ast.Call) and norm.raw(s.value.func) == "URL" and any(k.arg == "encoded" for k in s.value.keywords)]
+    for u in urls:
+        src = norm.raw(u.value.args[0]) if u.value.args else ""
+        tr = next((t for t in prog.enclosing(u, (ast.Try,)) if prog.in_body_of(u, t, "body") and any("ValueError" in PC.handler_types(h) for h in t.handlers)), None)
+        enc = tr is not None and any(isinstance(c, ast.Call) and isinstance(c.func, ast.Attribute) and c.func.attr == "encode" and norm.raw(c.func.value) == src for st_ in tr.body for c in ast.walk(st_))
+        if enc:
+            chk.ok("C17.entry", u, f"`{src}` is checked for encodability inside the ValueError guard")
+        else:
+            chk.violation("C17.entry", u, K.short(u, 70), f"{src}.encode('utf-8') inside the try",
+                          "a Location holding bytes that are not UTF-8 (`/caf\\xe9`) reaches the next hop surrogate-escaped: with requote_redirect_url=False the request raises a bare UnicodeEncodeError / idna error, with requoting the byte is silently dropped and another path is requested")
+    # (b) credentials embedded in the URL are decoded and re-encoded at the top of every hop: that can fail for a server-chosen Location
+    for c in [c for c in prog.calls_in(rq.node) if prog.call_name(c) == "strip_auth_from_url"]:
+        hs = [h for _t, h in K.enclosing_try_handlers(c) if "ValueError" in PC.handler_types(h)]
+        if hs and any(rc and rc.endswith("ClientError") for h in hs for _r, rc in K.raises_in(h)) or (hs and any(isinstance(x, ast.Raise) for h in hs for x in ast.walk(h))):
+            chk.ok("C17.entry", c, "a ValueError from the URL's embedded credentials is raised as InvalidUrl(Redirect)ClientError")
+        else:
+            chk.violation("C17.entry", c, K.short(c), "try: ... except ValueError: raise InvalidUrlRedirectClientError / InvalidUrlClientError",
+                          "`Location: http://us%3Aer:pw@host/` passes every redirect guard and the next loop iteration fails in strip_auth_from_url() -> encode_basic_auth() with a bare ValueError('A \":\" is not allowed in login'): session.get() raises a non-ClientError for server-controlled input")
+    # ---- C17.strip: the proxy is another party too ------------------------------------------------------------------------------------------
+    ph = [s for s in ast.walk(rq.node) if isinstance(s, ast.Assign) and norm.raw(s.targets[0]) == "resolved_proxy_headers" and not (isinstance(s.value, ast.Constant) and s.value.value is None)]
+    if not ph:
+        chk.analysis_error("C17.strip: the proxy header set (resolved_proxy_headers) is no longer built in ClientSession._request")
+    for s_ in ph:
+        from_defaults = "self._prepare_headers" in norm.raw(s_.value)
+        blk = PC._block_of(s_) or []
+        later = blk[blk.index(s_) + 1:] if s_ in blk else []
+        dropped = {m for m in ("hdrs.AUTHORIZATION", "hdrs.COOKIE") if any("popall" in norm.raw(x) and (m in norm.raw(x) or ("name" in norm.raw(x) and m in " ".join(norm.raw(y) for y in later))) for x in later)}
+        if not from_defaults or dropped == {"hdrs.AUTHORIZATION", "hdrs.COOKIE"}:
+            chk.ok("C17.strip", s_, "the proxy does not get the session's default Authorization / Cookie (only what proxy_headers names)")
+        else:
+            chk.violation("C17.strip", s_, K.short(s_, 70), "drop hdrs.AUTHORIZATION and hdrs.COOKIE unless given in proxy_headers",
+                          "the proxy header set starts from the session's default headers: a session-level Authorization / Cookie is sent to the proxy in the clear-text CONNECT request - on the first hop and again on the hop after a cross-origin redirect that had just dropped them for the new origin")
+    # ---- C17.perhop: building one attempt does not consume the header set shared by all attempts --------------------------------------------
+    RQM = "aiohttp/client_reqrep.py"
+    uh = repo.func(RQM, "ClientRequestBase._update_headers")
+    prm = [a.arg for a in uh.node.args.args[1:]]
+    muts = [c for c in prog.calls_in(uh.node) if isinstance(c.func, ast.Attribute) and isinstance(c.func.value, ast.Name) and c.func.value.id in prm and c.func.attr in ("pop", "popall", "popone", "popitem", "clear", "setdefault", "add", "extend", "update")]
+    muts += [d for d in ast.walk(uh.node) if isinstance(d, (ast.Delete, ast.Assign)) and any(isinstance(t, ast.Subscript) and isinstance(t.value, ast.Name) and t.value.id in prm for t in (d.targets if hasattr(d, "targets") else []))]
+    if muts:
+        chk.violation("C17.perhop", muts[0], K.short(muts[0]), "read-only use of the caller's header mapping",
+                      "_update_headers() takes entries out of the mapping it is given, and ClientSession._request passes the same mapping to every attempt: a caller-supplied `Host` header is gone on the transparent retry after ServerDisconnectedError and on every redirect hop, so the request is answered for another virtual host")
+    else:
+        chk.ok("C17.perhop", uh, "_update_headers() does not modify the header mapping shared by retries and redirect hops")
